@@ -19,7 +19,24 @@ def describe(rec):
         [(e["src"], e["kind"], e["of"]) for e in rec["final"]["result"]])
 
 
+def replay(c, rp):
+    """bin/check C44 --replay replays/C44/<key>.json : run that one program again and let TLC judge it"""
+    rec = codec.run_auth_program(rp["prog"], rp.get("style", "generator"))
+    c.case(key=(rec["style"],) + tuple(rec["prog"]), sample=rec)
+    res, _ = c.trace("AuthStrategy_Trace", [{k: rec[k] for k in ("prog", "events", "final")}],
+                     cfg_text(spec="TSpec", constants={"Outcomes": set(codec.exception_factories()) | {"ok"}, "MaxLen": 8, "Mutation": "none"},
+                              invariants=["Report"]))
+    if len(res["DONE"]) != 1:
+        raise Machinery("trace validation did not consume the replayed trace")
+    c.traces += 1
+    c.verdicts(res["VERDICT"], lambda tid, clause, row: (clause, "%s fails for %s" % (clause, describe(rec)), rec))
+    c.rule = "replay of one recorded program"
+
+
 def run(c):
+    if getattr(c, "replay_file", None):
+        import json
+        return replay(c, json.load(open(c.replay_file))["replay"])
     maxlen = 4 if c.quick else 6
     consts = {"Outcomes": set(MODEL_OUTCOMES), "MaxLen": maxlen, "Mutation": "none"}
     invs = ["TypeOK", "ResultTracksCalls", "FinalOK", "LoopAgrees"]
@@ -32,9 +49,9 @@ def run(c):
         raise Machinery("expected %d emitted programs, got %d" % (nprog, len(cases)))
     # sensitivity: each mutation of the loop must violate the invariant that states the clause it breaks
     small = dict(consts, MaxLen=3)
-    for mut, inv in MUTATIONS.items():
+    for mut, inv in list(MUTATIONS.items())[:2 if c.quick else None]:
         c.mc("AuthStrategy", cfg_text(constants=dict(small, Mutation=mut), invariants=invs, properties=["CallsLegal"]),
-             expect=inv, name="mutation " + mut)
+             expect=inv, name="mutation " + mut, workers=4)
 
     # ---- RP: spec -> code.  Every emitted program on the real class
     batch, expect = [], []
@@ -75,6 +92,8 @@ def run(c):
         clause, "%s fails for %s%s" % (clause, describe(batch[tid - 1]),
                                        " [%s]" % batch[tid - 1]["error"] if batch[tid - 1]["error"] else ""),
         batch[tid - 1]))
+    if flagged and not (c.violations or c.known_hits or c.conf):
+        raise Machinery("TLC flagged %d traces but no verdict was registered" % len(flagged))
     for rec in batch:
         if not rec["transport_ok"]:
             c.conformance("transport_not_passed", "a source was not given the transport: " + describe(rec))
